@@ -56,6 +56,23 @@ static mut MAX_OBJECTS: usize = 64;
 
 static mut MANUAL_EVENTS_BETWEEN_COLLECT: usize = 64;
 
+#[cfg(feature = "circ_verif")]
+pub(crate) unsafe fn verif_set_knobs(max_objects: usize, manual_events_between_collect: usize) {
+    MAX_OBJECTS = max_objects;
+    MANUAL_EVENTS_BETWEEN_COLLECT = manual_events_between_collect;
+}
+
+#[cfg(feature = "circ_verif")]
+impl Local {
+    pub(crate) fn verif_peek(&self) -> (usize, usize, usize) {
+        (
+            self.epoch.verif_peek(),
+            self.guard_count.get(),
+            self.handle_count.get(),
+        )
+    }
+}
+
 /// A bag of deferred functions.
 pub(crate) struct Bag(Vec<Deferred>);
 
